@@ -20,7 +20,8 @@ theorem cleanupRest_todo (s : St) (t : Option (List Nat)) (bs : List Nat) :
     simp only [cleanupRest]
     have h1 : (cacheCleanup { s with todo := t } b).1 = { (cacheCleanup s b).1 with todo := t } := rfl
     have h2 : (cacheCleanup { s with todo := t } b).2 = (cacheCleanup s b).2 := rfl
-    rw [h1, h2, ih]
+    have h3 : rebuilds { s with todo := t } b = rebuilds s b := rfl
+    rw [h1, h2, h3, ih]
 
 theorem run_cleanupBuckets (cfg : Cfg) (bs : List Nat) (s : St) (ht : s.todo = mkTodo bs) :
     run cfg s (bs.map fun _ => Label.cleanupBucket) =
@@ -191,7 +192,8 @@ theorem cleanupRest_frame (s : St) (bs : List Nat) :
     refine ⟨this.1, this.2.1, this.2.2.1, this.2.2.2.1, ?_⟩
     intro e he hin
     have h1 := this.2.2.2.2 e he hin
-    simp only [cacheCleanup, List.mem_map] at h1
+    rw [cacheCleanup_heap] at h1
+    simp only [evicted, List.mem_map] at h1
     obtain ⟨e0, he0, rfl⟩ := h1
     split at hin
     · simp at hin
